@@ -369,11 +369,15 @@ func runWire(c *WireCase) (interface{}, error) {
 			return map[string]interface{}{"harness": "append: " + err.Error()}, nil
 		}
 	}
+	sealChanged := false
 	if c.Seal {
+		open := snapshot(tok, pub)
 		tok, err = tok.Seal(nil2rand())
 		if err != nil {
 			return map[string]interface{}{"harness": "seal: " + err.Error()}, nil
 		}
+		// C09: the sealed token prints, identifies and authorizes exactly like the token it was made from
+		sealChanged = snapshot(tok, pub) != open
 	}
 	ser, err := tok.Serialize()
 	if err != nil {
@@ -393,6 +397,9 @@ func runWire(c *WireCase) (interface{}, error) {
 	}
 	out := map[string]interface{}{"wire": map[string]interface{}{"blocks": jw}}
 	rt := []string{}
+	if sealChanged {
+		rt = append(rt, "sealing changed the content / revocation ids / root key id / authorization of the token (in memory)")
+	}
 	// round trip
 	before := snapshot(tok, pub)
 	re, err := unmarshal(ser)
